@@ -6,6 +6,7 @@ import FP.Model.Conv
 import FP.Lemmas.Text
 import FP.Lemmas.Conv
 import FP.Lemmas.DecText
+import FP.Lemmas.ConvFine
 namespace FP.Props.C13
 open FP FP.Model FP.Model.Text FP.Model.Conv FP.Lemmas.Text FP.Lemmas.Conv FP.Lemmas.DecText FP.Gen.Layouts
 
@@ -193,6 +194,40 @@ example : ¬ Expressible (goLayout "2006-01-02T15:04:05.000Z07:00".toList) ⟨20
   intro h
   have := h.1 (.frac0 3) (by simp [goLayout]) (.nanos, (123456000 : Int) / pow10 (9 - 3) * pow10 (9 - 3)) (by simp [assign])
   simp [Wall.get, pow10] at this
+
+/-! ### digits below the millisecond -/
+
+/-- the regenerated tables also have what the fine round trip needs: every millisecond layout has
+    its sibling without a fraction in the table, no earlier layout accepts the widened rendering,
+    the sibling splits it with the fraction inside the seconds piece, and `widenLayout` maps the
+    sibling back -/
+theorem dateTime_fine_ok : fineOK parseDateTimeLayouts = true := by decide +kernel
+theorem time_fine_ok : fineOK parseTimeLayouts = true := by decide +kernel
+
+/-- DIGITS BELOW THE MILLISECOND: a DateTime whose reading has microseconds or nanoseconds,
+    rendered by toString (six or nine fraction digits) and converted back, is the same value -/
+theorem dateTime_roundtrip_fine (i : Nat) (l : String) (hl : parseDateTimeLayouts[i]? = some l) (w : Wall) (hb : Bounded w)
+    (hn : w.nanos % 1000000 ≠ 0) (hx : Expressible (fractionLayout (goLayout l.toList) w) w) :
+    toStringV (.dateTime l w) = .ok (some (.str (formatT l w))) ∧
+    toDateTimeV (.str (formatT l w)) = .ok (some (.dateTime l w)) := by
+  refine ⟨rfl, ?_⟩
+  obtain ⟨j, hj, hw⟩ := table_roundtrip_fine _ _ dateTime_table_ok dateTime_fine_ok i l hl w hb hn hx
+  simp only [toDateTimeV, parseDateTime, parseFirstOk_of offsetInRange _ _ j w hj (offsetInRange_of_bounded w hb), hw]
+
+theorem time_roundtrip_fine (i : Nat) (l : String) (hl : parseTimeLayouts[i]? = some l) (w : Wall) (hb : Bounded w)
+    (hn : w.nanos % 1000000 ≠ 0) (hx : Expressible (fractionLayout (goLayout l.toList) w) w) :
+    toStringV (.time l w) = .ok (some (.str (formatT l w))) ∧
+    toTimeV (.str (formatT l w)) = .ok (some (.time l w)) := by
+  refine ⟨rfl, ?_⟩
+  obtain ⟨j, hj, hw⟩ := table_roundtrip_fine _ _ time_table_ok time_fine_ok i l hl w hb hn hx
+  simp only [toTimeV, parseTime, hj, hw]
+
+/-- the hypotheses are satisfiable: microseconds under the millisecond layout -/
+example : Expressible (fractionLayout (goLayout "2006-01-02T15:04:05.000Z07:00".toList) ⟨2024, 2, 29, 23, 59, 58, 123456000, 19800⟩)
+    ⟨2024, 2, 29, 23, 59, 58, 123456000, 19800⟩ := by
+  apply expressible_of
+  · intro n hn; simp [fractionLayout, goLayout] at hn; subst hn; decide
+  · intro k hk; cases k <;> simp [fractionLayout, goLayout, kindOf] at hk
 
 /-! ### Decimal and Quantity texts -/
 
